@@ -1,4 +1,4 @@
-import Glom.Lemmas.C12
+import Glom.Lemmas.C12b
 import Glom.Model.C11Env
 /-
   C12 — delete removes exactly the addressed element, or nothing.
@@ -40,7 +40,10 @@ theorem c12_facts_wf : ∀ uc fl, C12.WF (genEnv uc fl) = true := by
     `_apply_for_each` flattens `layers - 1` times and then iterates; `TType.__stars__` counts
     `x` / `X` over the operator slots only; no method of `Assign` / `Delete` other than `__init__`
     stores into `self`; in the default `delete` registrations the duck types carry `object`'s
-    handler. -/
+    handler; the loop of `_t_eval` over the entries a wildcard produced evaluates the rest of the
+    path once per ENTRY, in order (the model's `collect` over `children.map`: an entry object that
+    occurs twice among the matches is processed twice — `delete([row, row], '*.0')` deletes two
+    items of `row`), a PathAccessError skipping the entry. -/
 theorem c12_facts_shape :
     Generated.delOneGuards = [("[", "not self.ignore_missing"), (".", "not self.ignore_missing"),
       ("P", "not self.ignore_missing")] ∧
@@ -49,7 +52,9 @@ theorem c12_facts_shape :
     Generated.applyForEachShape = "flatten layers-1 then iterate" ∧
     Generated.starsShape = "count x/X over the operator slots __ops__[1::2]" ∧
     Generated.specSelfWrites.filter (·.1 == "Delete") = [] ∧
-    virtualLikeObject Generated.defaultReg_delete = true := by decide
+    virtualLikeObject Generated.defaultReg_delete = true ∧
+    Generated.starLoopShape = "rest evaluated once per entry in order; PathAccessError skips the entry" := by
+  decide
 
 /-- **Facts obligation, S-rooted paths**: `Delete.__init__` passes its path through
     `_s_first_item` (a first step written `S.name` / `Path(S, name)` is re-spelled `S[name]`, for
@@ -60,6 +65,14 @@ theorem c12_facts_s_first (sroot : Bool) (steps : List Step) :
   have ht : genSFirst "Delete" = [(".", "["), ("P", "[")] := by decide
   rw [ht]
   exact Glom.C11.initPath_eq_readSteps sroot steps
+
+/-- **Facts obligation with user registrations**: `_del_one`'s branch table does not depend on the
+    registry — the theorems hold for every `delete` handler table (user types registered with any of
+    the handler kinds, `False`, or a handler of their own: the table is a parameter of the model). -/
+theorem c12_facts_wf_ureg : ∀ uc fl (ur : UReg), C12.WF (genEnv uc fl ur) = true := by
+  intro uc fl ur
+  have : C12.WF (genEnv uc fl ur) = C12.WF (genEnv [] []) := rfl
+  rw [this]; exact c12_facts_wf [] []
 
 /-- **Same object**: whatever `delete` returns is the target it was given — for every input. -/
 theorem c12_same_object (env : MEnv) (sroot : Bool) (sref : Val) (ignore : Bool) (h : Heap)
@@ -243,6 +256,81 @@ theorem c12_star {env : MEnv} (hwf : C12.WF env = true) (hc : classesOK env = tr
     obtain ⟨st', hrun, h1, h2⟩ := hs
     simp [hrun, h1, h2]
 
+/-- **Delete after assign** (`_partial`: destinations whose parent exists; the hypotheses of put-get:
+    the parent path does not pass through the written object, immediate path arguments, a visible
+    write, the `assign` / `delete` handlers of the object's type are a pair): deleting through the
+    path that was just assigned through is — where the original already had the element —
+    deleting the original element (`delete(assign(t, p, v), p)` leaves the heap of
+    `delete(t, p)`); and — where the assignment created the element (`del` on the original raises
+    KeyError / AttributeError) — **restores the original heap exactly** (also the entry order of
+    the dict: a new key is appended, and it is that last entry which is removed).  For every path
+    length, container kind and registered handler pair. -/
+theorem c12_delete_after_assign_partial {env : MEnv} {orig : List Step} (hy : Hyps env orig)
+    (hwf11 : C11.WF env = true) (has : argsScalar orig = true) (sroot : Bool) (sref : Val) (ignore : Bool)
+    (h : Heap) (target : Val) (v d : Val) (op : String) (arg : Val)
+    (hl : orig.getLast? = some (op, arg))
+    (hm : matchesOf env h orig.dropLast 0 (if sroot then sref else target) = .ok [d])
+    (hnv : d ∉ visits env h orig.dropLast (if sroot then sref else target))
+    (hsc : isScope env h d = false)
+    (hpair : ∀ ha hd, nearestHandler env.t.ct env.assignReg (d.clsName h) = some ha →
+      nearestHandler env.t.ct env.deleteReg (d.clsName h) = some hd → adPair ha hd = true)
+    (hdel : op = "P" → (nearestHandler env.t.ct env.deleteReg (d.clsName h)).isSome)
+    (r : Val) (hok : (assign env sroot sref .none h target orig (.val v)).2 = .ok r)
+    (hnh : (assign env sroot sref .none h target orig (.val v)).1.hidden = false) :
+    let h1 := (assign env sroot sref .none h target orig (.val v)).1.heap
+    (∀ w0, refDelOp env h op d arg = some (.ok w0) →
+      (delete env sroot sref ignore h1 target orig).2 = .ok target ∧
+      (delete env sroot sref ignore h1 target orig).1.heap = (delete env sroot sref ignore h target orig).1.heap) ∧
+    (∀ e, refDelOp env h op d arg = some (.error e) → missingExc e = true →
+      (delete env sroot sref ignore h1 target orig).2 = .ok target ∧
+      (delete env sroot sref ignore h1 target orig).1.heap = h) := by
+  obtain ⟨hwf, hc, hs⟩ := C12.covered_parts hy
+  have hlastw : C01.wfSteps [(op, arg)] = true := (wfSteps_iff orig).1 hs _ (getLast?_mem hl)
+  have hfin : finalOk op = true := finalOk_of_wfSteps hlastw
+  have hargk : ∀ a, arg ≠ .ref a := argsScalar_sub has (op, arg) (getLast?_mem hl)
+  have hpw : C01.wfSteps orig.dropLast = true := wfSteps_sub hs (fun s hs' => mem_of_mem_dropLast hs')
+  have hpns := wfSteps_noStar hpw
+  have hpas : argsScalar orig.dropLast = true :=
+    argsScalar_of (fun t ht => argsScalar_sub has t (mem_of_mem_dropLast ht))
+  have e1 := assign_exact_val (missing := .none) hwf11 hc v hs sref d op arg hl hm
+  cases hr1 : refAssignOp env h op d arg v with
+  | none => rw [hr1] at e1; rw [e1] at hok; cases hok
+  | some r1 =>
+    cases r1 with
+    | error e => rw [hr1] at e1; rw [e1] at hok; cases hok
+    | ok w1 =>
+      rw [hr1] at e1
+      have hh1 : (assign env sroot sref .none h target orig (.val v)).1.heap = w1.heap := by rw [e1]; rfl
+      have hhid : w1.hidden = false := by
+        rw [e1] at hnh; simpa [St.wrote] using hnh
+      simp only [hh1]
+      have hfr := refAssignOp_frame hr1
+      have hpre : matchesOf env w1.heap orig.dropLast 0 (if sroot then sref else target) = .ok [d] := by
+        rw [matchesOf_congr_visits orig.dropLast hpns hpas 0 _ ?_, hm]
+        intro c hc' a hca
+        subst hca
+        exact hfr.2 a (fun e => hnv (by rw [e]; exact hc'))
+      obtain ⟨r0, r1', hd0, hd1, haft⟩ := refDelOp_after_assign hargk hsc hhid hpair hdel hr1
+      constructor
+      · intro w0 hw0
+        rw [hd0] at hw0
+        injection hw0 with hw0
+        obtain ⟨w', hw', hheap, hhid'⟩ := haft.1 w0 hw0
+        rw [hw'] at hd1
+        have ra := c12_eq_python hy sroot sref ignore w1.heap target w'.heap w'.hidden
+          (refDelete_ok_of hl hfin hpns hpre hd1)
+        have rb := c12_eq_python hy sroot sref ignore h target w0.heap w0.hidden
+          (refDelete_ok_of hl hfin hpns hm (by rw [hd0, hw0]))
+        exact ⟨ra.1, by rw [ra.2, rb.2, hheap]⟩
+      · intro e he hme
+        rw [hd0] at he
+        injection he with he
+        obtain ⟨w', hw', hheap, _⟩ := haft.2 e he hme
+        rw [hw'] at hd1
+        have ra := c12_eq_python hy sroot sref ignore w1.heap target w'.heap w'.hidden
+          (refDelete_ok_of hl hfin hpns hpre hd1)
+        exact ⟨ra.1, by rw [ra.2, hheap]⟩
+
 /-- **Checker theorem** — the form in which the property is also evaluated on the
     implementation's observation by the correspondence driver. -/
 theorem c12_model_checks {env : MEnv} {orig : List Step} (hy : Hyps env orig) (sroot : Bool)
@@ -334,5 +422,26 @@ theorem c12_old_table_counterexample :
       .error (.raised (exc "KeyError")) ∧
     (delete oldEnv false .none true exHeap (.ref 0) [("[", .str "zz")]).2 =
       .error (.raised (exc "KeyError")) := by decide
+
+
+/-- delete after assign, concretely: a NEW attribute `a.1.n` is assigned and deleted again — the heap is
+    exactly the original one; an EXISTING item `a.0` is assigned and deleted — the heap of `delete(t, 'a.0')` -/
+example :
+    let pn : List Step := [("P", .str "a"), ("P", .str "1"), ("P", .str "n")]
+    let p0 : List Step := [("P", .str "a"), ("P", .str "0")]
+    (delete exEnv false .none false (assign exEnv false .none .none exHeap (.ref 0) pn (.val (.int 5))).1.heap
+      (.ref 0) pn).1.heap = exHeap ∧
+    (delete exEnv false .none false (assign exEnv false .none .none exHeap (.ref 0) p0 (.val (.int 5))).1.heap
+      (.ref 0) p0).1.heap = (delete exEnv false .none false exHeap (.ref 0) p0).1.heap := by decide
+/-- … and the hypotheses of `c12_delete_after_assign_partial` hold for it: the handlers of every class of
+    the heap are pairs, nothing on the way is the scope -/
+example :
+    C11.WF exEnv = true ∧ argsScalar [("P", .str "a"), ("P", .str "1"), ("P", .str "n")] = true ∧
+    matchesOf exEnv exHeap [("P", .str "a"), ("P", .str "1")] 0 (.ref 0) = .ok [.ref 2] ∧
+    (.ref 2 : Val) ∉ visits exEnv exHeap [("P", .str "a"), ("P", .str "1")] (.ref 0) ∧
+    isScope exEnv exHeap (.ref 2) = false ∧
+    nearestHandler exEnv.t.ct exEnv.assignReg "Obj" = some "setattr" ∧
+    nearestHandler exEnv.t.ct exEnv.deleteReg "Obj" = some "delattr" ∧ adPair "setattr" "delattr" = true := by
+  decide
 
 end Glom.Props.C12
